@@ -30,6 +30,8 @@ def run(ctx):
         "X-WEIGHT": "every insertion into the extract carries the source weight unless it sits on the not-weighted branch",
         "X-EMETA": "every inserted hyperedge receives the source metadata (argument or following transfer loop) on every returning path",
         "X-NMETA": "every node of the extract receives the source node metadata: no node is created after / without the transfer loop",
+        "X-NODES": "whole-node-set insertions into the extract take all nodes of the source (or the requested node list)",
+        "X-DELEG": "an extractor that delegates to another one hands over the requested selection (an up_to range starts at order 0 / size 1)",
         "X-SUBSET": "induced sub-hypergraph keeps hyperedges that are subsets of the requested node set",
         "F-FWD": "subhypergraph_largest_component forwards its order/size filter",
     })
